@@ -187,6 +187,24 @@ def rule_r1(ctx):
     for comp in sccs:
         rr.instances += 1
         what = "scc|" + "+".join(c.split(":")[1] for c in comp)
+        # does the cycle exist without the edges that were only guessed by method name?
+        guessed = [(a, b) for (a, b) in cg.guessed_edges if a in comp and b in comp]
+        if guessed:
+            saved = {a: set(cg.edges[a]) for a, _b in guessed}
+            try:
+                for a, b in guessed:
+                    typed_too = any(getattr(t, "fq", None) == b and (a, b) not in cg.guessed_edges for _c, t in cg.call_sites[a])
+                    if not typed_too:
+                        cg.edges[a].discard(b)
+                still = [c2 for c2 in cg.sccs(set(comp)) if set(c2) & set(comp)]
+            finally:
+                for a, e in saved.items():
+                    cg.edges[a] = e
+            if not still:
+                raise AnalysisError(
+                    "C17-R1: a call cycle through " + ", ".join(sorted(c.split(":")[1] for c in comp)[:4]) + " ... exists only if "
+                    + f"`{guessed[0][0].split(':')[1]}` really calls `{guessed[0][1].split(':')[1]}`; the receiver of that call could not be typed (every method of that name was assumed)"
+                )
         pruned = _prune_infeasible(cg, comp)
         if len(pruned) < len(comp):
             rest = [c for c in pruned if any(getattr(t, "fq", None) in pruned for _c, t in cg.call_sites[c])]
